@@ -5,12 +5,19 @@ import json, os, sys
 HERE = os.path.dirname(os.path.dirname(os.path.abspath(__file__)))
 SRC = open("/repo/svgelements/svgelements.py").read()
 M = []
-def mut(id, prop, desc, old, new, runs=None):
+def mut(id, prop, desc, old, new, runs=None, more=()):
     n = SRC.count(old)
     if n != 1:
         print("PATTERN PROBLEM", id, n); sys.exit(1)
     d = {"id": id, "property": prop, "description": desc, "old": old, "new": new}
     if runs: d["runs"] = runs
+    if more:
+        # further cooperating sites of the same change
+        d["more"] = []
+        for o2, n2 in more:
+            if SRC.count(o2) != 1:
+                print("PATTERN PROBLEM (more)", id, SRC.count(o2)); sys.exit(1)
+            d["more"].append({"old": o2, "new": n2})
     M.append(d)
 
 # ---------------- C09
@@ -422,6 +429,18 @@ mut("c10-bad-fill-poisons-parent", "C10", "a colour that cannot be parsed is wri
                 if attributes.get(SVG_ATTR_FILL, "").startswith("#") and len(attributes[SVG_ATTR_FILL]) not in (4, 5, 7, 9):
                     current_values[SVG_ATTR_FILL] = "none"
                 values.update(attributes)''')
+
+mut("c10-styles-kept-between-parses", "C10", "the style-sheet table became a default argument value (two sites): it is created once and survives from one parse to the next",
+'''        parse_display_none=False,
+        on_error="ignore",
+    ):''',
+'''        parse_display_none=False,
+        on_error="ignore",
+        styles={},
+    ):''', more=[('''        root = context
+        styles = {}
+        stack = []''', '''        root = context
+        stack = []''')])
 
 # ---------------- C20
 mut("c20-viewport-inverse-wrong-side", "C20", "the inverse viewport transform is multiplied on the wrong side",
